@@ -77,8 +77,8 @@ def judge(cfg, r):
     if "compworst" in r:
         if not (gl.num(r, "compworst") <= THR_ALG):
             out.append(("composition:%s:pre%d:post%d" % (tag, cfg["pre"], cfg["post"]),
-                        "a two-level cycle with %d pre- and %d post-smoothing steps differs from S^post o (coarse-grid correction) o S^pre composed "
-                        "from the level's public smoother and the public transfer / residual / coarse-solve operators by %.3g (relative)" %
+                        "the cycle with %d pre- and %d post-smoothing steps differs from the reference cycle composed from the levels' public "
+                        "smoother / residual / transfer / coarse-solve operators (harness-owned vectors) by %.3g (relative)" %
                         (cfg["pre"], cfg["post"], gl.num(r, "compworst"))))
     if "algworst" in r:
         if not (gl.num(r, "algworst") <= THR_ALG):
